@@ -435,7 +435,7 @@ fn check_total_ladder(rep: &mut Rep, name: &str, depth: usize, thread: &str, src
     }
 }
 
-type LadderFn = fn(usize) -> String;
+pub type LadderFn = fn(usize) -> String;
 
 const QUADRATIC: &[&str] = &[
     "member-chain", "index-chain", "method-chain", "wide-list", "wide-map", "wide-call",
